@@ -1659,7 +1659,7 @@ pub mod newline {
 /// The missed-span writer (`missed_spans.rs`): the text between two formatted nodes.
 pub mod missed {
     use crate::config::Config;
-    use crate::missed_spans::verif_local::{MissedEntry, format_missing_call};
+    use crate::missed_spans::verif_local::{MissedEntry, format_missing_call, with_text_visitor};
     use crate::shape::Indent;
 
     /// What one call left behind.
@@ -1703,6 +1703,37 @@ pub mod missed {
             last_pos,
             base,
         }
+    }
+
+    /// `close_block(mk_sp(lo, hi), unindent_comment)` on a visitor set up like
+    /// `format_missing`'s: the buffer, `line_number` and `block_indent` afterwards.
+    pub fn close_block(
+        text: &str,
+        buffer: &str,
+        block_indent: (usize, usize),
+        lo: usize,
+        hi: usize,
+        unindent_comment: bool,
+        config: &Config,
+    ) -> (String, usize, (usize, usize)) {
+        use rustc_span::{BytePos, Pos};
+        let indent = Indent::new(block_indent.0, block_indent.1);
+        with_text_visitor(text, 0, buffer, indent, config, |visitor, base| {
+            crate::visitor::verif_local::close_block(
+                visitor,
+                base + BytePos::from_usize(lo),
+                base + BytePos::from_usize(hi),
+                unindent_comment,
+            );
+            (
+                std::mem::take(&mut visitor.buffer),
+                visitor.line_number,
+                (
+                    visitor.block_indent.block_indent,
+                    visitor.block_indent.alignment,
+                ),
+            )
+        })
     }
 
     /// `utils::unicode_str_width` (what `last_line_width(&self.buffer)` measures with).
